@@ -32,11 +32,57 @@ pub fn check(c: &Case, ctx: &mut Ctx) -> Result<(), Failure> {
 }
 
 pub fn check_with(c: &Case, ctx: &mut Ctx, via_default: bool) -> Result<(), Failure> {
+    let mut ind = if via_default { Ind::default_of(c.cfg.kind) } else { Ind::build(c.cfg.kind, &c.cfg.params()).map_err(|_| harness_fail("build"))? };
+    check_on(c, ctx, &mut ind)
+}
+
+/// a case with reset() calls: `resets[j]` = number of inputs fed before the j-th reset. Each stretch between
+/// resets is judged as a stream of its own (t counts inputs since the reset, as the property defines it) on the
+/// *same* instance.
+#[derive(Clone, Debug, Serialize, Deserialize)]
+pub struct RCase {
+    pub case: Case,
+    pub resets: Vec<usize>,
+}
+
+pub fn check_resets(r: &RCase, ctx: &mut Ctx) -> Result<(), Failure> {
+    let c = &r.case;
+    let mut ind = Ind::build(c.cfg.kind, &c.cfg.params()).map_err(|_| Failure { signature: "C02:harness".into(), detail: "HARNESS build".into() })?;
+    
+    let len = if c.scalar { c.xs.len() } else { c.bars.len() };
+    let mut cuts: Vec<usize> = r.resets.iter().copied().filter(|&x| x > 0 && x < len).collect();
+    cuts.sort_unstable();
+    cuts.dedup();
+    cuts.push(len);
+    let mut a = 0usize;
+    for (j, &b) in cuts.iter().enumerate() {
+        if j > 0 {
+            ind.reset();
+            
+            ctx.label("segments_after_reset");
+        }
+        let mut seg = c.clone();
+        if c.scalar {
+            seg.xs = c.xs[a..b].to_vec();
+        } else {
+            seg.bars = c.bars[a..b].to_vec();
+        }
+        // only the last stretch (always one after a reset) is counted, so that a case counts once
+        let was = ctx.counting;
+        ctx.counting = was && j + 1 == cuts.len();
+        let res = check_on(&seg, ctx, &mut ind);
+        ctx.counting = was;
+        res?;
+        a = b;
+    }
+    Ok(())
+}
+
+pub fn check_on(c: &Case, ctx: &mut Ctx, ind: &mut Ind) -> Result<(), Failure> {
     let k = c.cfg.kind;
     let p = c.cfg.params();
     let n = c.cfg.n();
     let m = p.m;
-    let mut ind = if via_default { Ind::default_of(k) } else { Ind::build(k, &p).map_err(|_| harness_fail("build"))? };
     let len = if c.scalar { c.xs.len() } else { c.bars.len() };
     let mut big = 0.0f64;
     let mut fp = Fp::new("C02");
@@ -274,6 +320,29 @@ fn strategy(tier: Tier) -> BoxedStrategy<Case> {
     ]
     .boxed()
 }
+fn reset_strategy() -> BoxedStrategy<RCase> {
+    prop_oneof![
+        cfg_among(&SK, 40, multiplier_any)
+            .prop_flat_map(|cfg| {
+                let n = cfg.n();
+                (Just(cfg), multi_stream(Domain::AnySign, 4 * n + 10, 8 * n + 60), proptest::collection::vec(any::<u16>(), 1..4))
+            })
+            .prop_map(|(cfg, s, pk)| {
+                let resets = crate::hist::reset_positions(cfg.n(), s.vals.len(), &pk);
+                RCase { case: Case { cfg, scalar: true, xs: xs(&s.vals), bars: vec![] }, resets }
+            }),
+        cfg_among(&BK, 40, multiplier_any)
+            .prop_flat_map(|cfg| {
+                let n = cfg.n();
+                (Just(cfg), prop_oneof![bar_stream(false, 4 * n + 10, 8 * n + 60), bar_stream(true, 4 * n + 10, 8 * n + 60)], proptest::collection::vec(any::<u16>(), 1..4))
+            })
+            .prop_map(|(cfg, s, pk)| {
+                let resets = crate::hist::reset_positions(cfg.n(), s.bars.len(), &pk);
+                RCase { case: Case { cfg, scalar: false, xs: vec![], bars: s.bars }, resets }
+            }),
+    ]
+    .boxed()
+}
 fn long_strategy() -> BoxedStrategy<Case> {
     prop_oneof![
         cfg_among(&SK, 1024, multiplier_any).prop_flat_map(move |cfg| (Just(cfg), stream(Domain::AnySign, 10_000, 20_000))).prop_map(|(cfg, s)| Case {
@@ -346,6 +415,9 @@ pub fn run(g: &mut Global) {
     let tier = g.tier;
     g.random("random", g.tier.pick(40000, 300000), &move || strategy(tier), &check);
     g.random("long", g.tier.pick(64, 800), &long_strategy, &check);
+    // the same formulas after reset(): t counts inputs since the reset; resets at multiples of the period, next to
+    // them, anywhere, and a second reset before the window refilled
+    g.random("resets", g.tier.pick(20000, 150000), &reset_strategy, &check_resets);
     // sleep and wake: a long run of identical bars (ATR and the other averages of movement decay through the
     // subnormal range to zero), then activity again
     let seed = g.seed;
